@@ -2,13 +2,17 @@
 (* Model-checking instances of SchemaAgree.tla (X01, schema agreement). *)
 EXTENDS SchemaAgree
 
-\* reachability (vacuity guard): TLC must VIOLATE each of these
-Never_nil == A.res # "nil"
-Never_disagree == A.res # "disagree"
-Never_ctx == A.res # "ctx"
-Never_ddlerr == A.res # "ddlerr"
-Never_nullrow_agreement == ~(A.res = "nil" /\ \E p \in Peers : A.last.rows[p].kind = "nullver")
-Never_invalidrow_agreement == ~(A.res = "nil" /\ \E p \in Peers : A.last.rows[p].kind = "invalid" /\ A.last.rows[p].ver # A.last.lver)
-Never_failed_then_nil == ~(A.res = "nil" /\ A.fails > 0)
-Never_ddl_nil == ~(A.res = "nil" /\ A.kind = "ddl")
+\* reachability (vacuity guard): every situation below has to be met by the model passes.  Each worker prints a
+\* situation the first time it meets it (TLC registers), the check collects the REACHED lines.
+ASSUME \A i \in 1 .. 8 : TLCSet(i, 0)
+Mark(i, c, name) == (c /\ TLCGet(i) = 0) => (PrintT(<<"REACHED", name>>) /\ TLCSet(i, 1))
+ReachMarks ==
+  /\ Mark(1, A.res = "nil", "nil")
+  /\ Mark(2, A.res = "disagree", "disagree")
+  /\ Mark(3, A.res = "ctx", "ctx")
+  /\ Mark(4, A.res = "ddlerr", "ddlerr")
+  /\ Mark(5, A.res = "nil" /\ \E p \in Peers : A.last.rows[p].kind = "nullver", "nullrow_agreement")
+  /\ Mark(6, A.res = "nil" /\ \E p \in Peers : A.last.rows[p].kind = "invalid" /\ A.last.rows[p].ver # A.last.lver, "invalidrow_agreement")
+  /\ Mark(7, A.res = "nil" /\ A.fails > 0, "failed_then_nil")
+  /\ Mark(8, A.res = "nil" /\ A.kind = "ddl", "ddl_nil")
 =============================================================================
